@@ -42,14 +42,24 @@ NATIVE = {
 KANI = {
     "C02": [("get_piece_at_contract", "board::Board::get_piece_at == position.piece_on(square): all 2^512 bitboard octets x 64 squares; loop bound 7 (six piece kinds), unwinding assertions on"),
             ("get_color_at_contract", "board::Board::get_color_at == position.color_on(square): all bitboards x 64 squares; loop bound 3")],
+    # assumed specifications of std scalar functions (contracts/std.vspec) checked against std itself for every argument
+    "C10": [("std_checked_shifts", "assumed std spec u64::checked_shl / checked_shr == (n < 64 ? Some(x << n / x >> n) : None): all u64 x u32, loop-free")],
+    "C05": [("std_saturating_add_i32", "assumed std spec i32::saturating_add: all i32 x i32, loop-free"),
+            ("std_max_min_i32", "assumed std spec cmp::max / cmp::min on i32 (the only instantiation in the engine): all i32 x i32, loop-free")],
+    "C04": [("std_char_fns", "assumed std specs char::to_digit(10), char::to_ascii_lowercase, char::is_lowercase (on ASCII letters): every char, loop-free")],
+}
+# harnesses that are complete but too slow for the quick tier: thorough tier only
+KANI_THOROUGH = {
+    "C01": [("std_count_ones", "assumed std spec u64::count_ones == popcount (the recursive spec function): all u64, one loop bounded by 64 with unwinding assertions on (about 100 s)")],
 }
 _built = {"ok": None, "log": ""}
 
 
-def run_kani(pid):
+def run_kani(pid, tier="quick"):
     """(records, violations) for the Kani leaf harnesses of property pid"""
     out, viol = [], []
-    if pid not in KANI:
+    todo = list(KANI.get(pid, [])) + (list(KANI_THOROUGH.get(pid, [])) if tier == "thorough" else [])
+    if not todo:
         return out, viol
     kdir = os.path.join(VERIF, "kani")
     lock = os.path.join(os.environ.get("FLOUNDER_REPO", "/repo"), "Cargo.lock")
@@ -59,7 +69,7 @@ def run_kani(pid):
     except OSError:
         pass
     env = dict(os.environ, CARGO_NET_OFFLINE="true", CARGO_TARGET_DIR=os.path.join(VERIF, "build", "kani_target"), RUSTFLAGS="--cfg flounder_verif")
-    for name, what in KANI[pid]:
+    for name, what in todo:
         t0 = time.time()
         try:
             p = subprocess.run(["cargo", "kani", "--harness", name], cwd=kdir, env=env, stdout=subprocess.PIPE, stderr=subprocess.STDOUT, text=True, timeout=900)
@@ -165,7 +175,7 @@ def bounded_standin(pid, tier, seed, bdir):
 
 def run_for(pid, tier, seed, bdir, spec):
     """secondary evidence; (list of records, list of violations)"""
-    out, viol = run_kani(pid)
+    out, viol = run_kani(pid, tier)
     # the bounded native checks run in the thorough tier, and in every tier for a property part of whose cone is outside
     # the verifier's reach (spec["native_always"]): there they are the stated bounded stand-in for that part
     if (tier != "thorough" and not spec.get("native_always")) or pid not in NATIVE:
